@@ -245,7 +245,7 @@ def features(t, acc=None):
 
 # ------------------------------------------------------------------ random / enumerated types
 
-WIDTHS = [1, 2, 3, 7, 8, 9, 13, 16, 17, 31, 32, 33, 63, 64]
+WIDTHS = [1, 2, 3, 7, 8, 9, 13, 16, 17, 24, 31, 32, 33, 40, 48, 56, 63, 64]
 
 
 def rand_prim(rng, void_ok=True):
@@ -290,7 +290,8 @@ def small_universe(level=1):
     import copy
 
     res = []
-    widths = [1, 2, 3, 7, 8, 9, 13, 16, 17, 31, 32, 33, 63, 64] if level > 1 else [1, 3, 8, 9, 16, 17, 32, 33, 64]
+    # 24 / 40 / 48 / 56: whole bytes on the wire but not a standard storage width (wire stride != memory stride in arrays)
+    widths = [1, 2, 3, 7, 8, 9, 13, 16, 17, 24, 31, 32, 33, 40, 48, 56, 63, 64] if level > 1 else [1, 3, 8, 9, 16, 17, 24, 32, 33, 40, 56, 64]
     prims = []
     for w in widths:
         prims += [U(w, True), U(w, False)]
@@ -301,6 +302,9 @@ def small_universe(level=1):
     for p in prims:
         for off in offs:
             res.append(S(([U(off, False)] if off else []) + [dict(p), U(5, True)]))
+    # a primitive as the LAST thing written (whatever a store spills beyond the field lands outside the advertised buffer size)
+    for p in prims[:: (1 if level > 1 else 2)]:
+        res.append(S([U(8), dict(p)]))
     for p in prims[:: (1 if level > 1 else 3)]:
         for off in (0, 3):
             pre = [U(off, True)] if off else []
@@ -336,6 +340,10 @@ def small_universe(level=1):
         res.append(S(pre + [FA(F(64), 1), U(3)]))
         res.append(S(pre + [VA(U(4), 5), B()]))
         res.append(S(pre + [FA(I(3), 7)]))
+        res.append(S(pre + [FA(U(24), 3), B()]))
+        res.append(S(pre + [VA(I(40), 2), U(3)]))
+        res.append(S(pre + [FA(U(56, False), 2)]))
+        res.append(S(pre + [VA(I(24), 3), VA(U(48), 1)]))
     # alternatives / fields whose in-memory form owns heap memory behind a FIXED-length array (C++: std::array of objects holding containers)
     owner = S([U(8), VA(U(8), 3)])
     owner_u = UN([VA(I(9), 2), U(8)])
